@@ -100,8 +100,22 @@ func (c *Ctx) runOneBatch(b TypeBatch, o eopts) []*Outcome {
 					x.Isolated = true
 				}
 			})
+			anyFail := false
 			for _, s := range subs {
 				outs = append(outs, s...)
+				for _, x := range s {
+					if x.Stage != "ok" {
+						anyFail = true
+					}
+				}
+			}
+			if !anyFail {
+				// every item is fine on its own: the failure needs the combination (e.g. two imports
+				// with the same package name in one generated file). Report the combination itself.
+				it := b.Items[0]
+				it.Tags = append(append([]string{}, it.Tags...), "combination-of-items")
+				outs = append(outs, &Outcome{Item: &it, Stage: stage, Stderr: "only in combination with the other items of the batch (each item alone is fine):\n" + stderr, Dir: dir, GenExit: exit})
+				return outs
 			}
 			os.RemoveAll(dir)
 			return outs
